@@ -1,10 +1,13 @@
-"""Synthetic TLS-over-TCP connections: a reference pair of endpoints that *send*.
+"""Synthetic TLS-over-TCP connections: a reference pair of endpoints that *send* (SSL 3.0 .. TLS 1.3).
 
 build_conn(spec, rng) -> Conn with
-  .events   : [(dir, record_bytes, kind, plaintext)] in send order  (dir 'c'|'s')
-  .keylog   : [str]  NSS key log lines
-  .truth    : {'c': bytes, 's': bytes}  application data each endpoint sent
-  .ref_keys : independent key material (for C15)
+  .events     [Ev] in send order; Ev.dir 'c'|'s', Ev.wire = full record bytes, Ev.kind in hs|ccs|ehs|app|alert|eapp-alert,
+              Ev.plain = application plaintext (kind app) or plaintext of an encrypted handshake/alert record, Ev.woff = offset of the record
+              in that direction's wire byte stream, Ev.poff = offset of its plaintext in that direction's application byte stream
+  .keylog     NSS key log lines
+  .truth      {'c': bytes, 's': bytes}  application data each endpoint sent
+  .ref_keys   key material by the independent reference KDFs (for C15)
+No import of tlexport.*; KDFs on hashlib/hmac only (refkdf); record protection in refrec.
 """
 import hashlib
 from dataclasses import dataclass, field
@@ -20,30 +23,40 @@ def ext(t, body):
     return t.to_bytes(2, "big") + len(body).to_bytes(2, "big") + body
 
 
-def rb(rng, n):
-    return rng.randbytes(n)
-
-
 @dataclass
 class Spec:
     version: int = 0x0303          # negotiated
     suite: int = 0xC02F
-    suite_name: str = ""
     resumed: bool = False
     sid_len: int = 32
-    etm: bool = False
+    etm: bool = False              # encrypt-then-MAC negotiated (only meaningful for CBC suites, TLS >= 1.0)
     ems: bool = True
     extra_exts: int = 0            # unknown extensions in ServerHello
-    server_ext: bool = True        # ServerHello carries an extensions block at all
-    group_server_flight: tuple = (1, 1, 1, 1)   # how handshake messages are packed into records
-    hs_secrets: bool = True        # TLS1.3: handshake secrets present in key log
-    ccs13: bool = True
-    pad13_max: int = 0
-    tickets: int = 0
-    app: list = field(default_factory=list)     # [(dir, bytes)]
-    alert_end: bool = False
+    server_ext: bool = True        # ServerHello carries an extensions block at all (TLS 1.0-1.2)
+    group_server_flight: tuple = (1, 1, 1, 1)   # how the server's handshake messages are packed into records
+    hs_secrets: bool = True        # TLS 1.3: handshake secrets present in key log
+    ccs13: bool = True             # TLS 1.3 middlebox-compatibility CCS
+    pad13_max: int = 0             # TLS 1.3 record padding 0..pad13_max zero bytes per record
+    tickets: int = 0               # post-handshake NewSessionTicket (1.3: anywhere in the history; <=1.2: before server CCS)
+    app: list = field(default_factory=list)     # [(dir, bytes)] history of application records
+    alert_end: bool = False        # final close_notify by the client
     cert_len: int = 300
-    extra_pad_blocks: int = 0
+    extra_pad_blocks: int = 0      # TLS >= 1.0 CBC: extra whole blocks of padding (<= 255 bytes total)
+    offered: tuple = ()            # other suites offered in ClientHello besides the selected one
+    use_rsa_label: bool = False    # <= 1.2: log the pre-master secret ("RSA <enc-pms-prefix> <pms>") - not generated (needs the encrypted PMS)
+    keylog_extra: bool = True      # EXPORTER_SECRET etc. lines present
+    cert_trap: bool = False        # Certificate body that reads as extensions 0x0016 / 0x002b=0304 to a parser that walks past the ServerHello
+
+
+@dataclass
+class Ev:
+    dir: str
+    wire: bytes
+    kind: str
+    plain: bytes = None
+    woff: int = 0
+    poff: int = 0
+    ctype: int = 22
 
 
 @dataclass
@@ -54,10 +67,12 @@ class Conn:
     truth: dict
     ref_keys: dict
     client_random: bytes
+    server_random: bytes
+    params: dict
+    master: bytes = None
 
 
 def pack_records(msgs, grouping, wire_ver):
-    """msgs: list of handshake messages; grouping: tuple of counts"""
     out = []
     i = 0
     for g in grouping:
@@ -71,11 +86,31 @@ def pack_records(msgs, grouping, wire_ver):
     return out
 
 
+def _finish(spec, ev, keylog, truth, ref_keys, cr, sr, p, master=None):
+    woff = {"c": 0, "s": 0}
+    poff = {"c": 0, "s": 0}
+    for e in ev:
+        e.woff = woff[e.dir]
+        woff[e.dir] += len(e.wire)
+        e.ctype = e.wire[0]
+        if e.kind == "app":
+            e.poff = poff[e.dir]
+            poff[e.dir] += len(e.plain)
+    assert poff["c"] == len(truth["c"]) and poff["s"] == len(truth["s"])
+    for e in ev:   # sender validity: record length fields consistent, fragment <= 2^14 + 2048
+        n = int.from_bytes(e.wire[3:5], "big")
+        assert n + 5 == len(e.wire) and n <= 16384 + 2048, (e.kind, n)
+    return Conn(spec, ev, keylog, truth, ref_keys, cr, sr, p, master)
+
+
 def build_conn(spec: Spec, rng) -> Conn:
-    p = suites.parse_name(spec.suite_name)
+    name = suites.REGISTRY[spec.suite]
+    p = suites.parse_name(name)
     v = spec.version
-    cr, sr = rb(rng, 32), rb(rng, 32)
-    sid = rb(rng, spec.sid_len)
+    assert v in suites.valid_versions(p), (hex(v), name)
+    rb = rng.randbytes
+    cr, sr = rb(32), rb(32)
+    sid = rb(spec.sid_len)
     ev = []
     truth = {"c": b"", "s": b""}
     keylog = []
@@ -84,85 +119,92 @@ def build_conn(spec: Spec, rng) -> Conn:
     legacy = min(v, 0x0303).to_bytes(2, "big")
 
     # ---------------- ClientHello
-    offered = b"".join(s.to_bytes(2, "big") for s in [0x1301, 0x00FF, spec.suite, 0x002F])
+    offer = list(spec.offered) + [spec.suite]
+    rng.shuffle(offer)
+    offered = b"".join(s.to_bytes(2, "big") for s in offer) + b"\x00\xff"
     ch = legacy + cr + bytes([len(sid)]) + sid + len(offered).to_bytes(2, "big") + offered + b"\x01\x00"
     if v != 0x0300:
         ce = ext(0, b"\x00\x0e\x00\x00\x0bexample.com") + ext(0x0017, b"") + ext(0x0016, b"")
         if v == 0x0304:
-            ce += ext(0x002b, b"\x02\x03\x04") + ext(0x0033, b"\x00\x24\x00\x1d\x00\x20" + rb(rng, 32))
+            ce += ext(0x002b, b"\x02\x03\x04") + ext(0x0033, b"\x00\x24\x00\x1d\x00\x20" + rb(32))
         ch += len(ce).to_bytes(2, "big") + ce
     ch_wire = b"\x03\x01" if v >= 0x0301 else b"\x03\x00"
-    ev.append(("c", refrec.plain_record(22, ch_wire, hs(1, ch)), "hs", None))
+    ev.append(Ev("c", refrec.plain_record(22, ch_wire, hs(1, ch)), "hs"))
 
     # ---------------- ServerHello
     se = b""
     if v == 0x0304:
-        se += ext(0x002b, b"\x03\x04") + ext(0x0033, b"\x00\x1d\x00\x20" + rb(rng, 32))
+        se += ext(0x002b, b"\x03\x04") + ext(0x0033, b"\x00\x1d\x00\x20" + rb(32))
     elif v != 0x0300:
         if spec.etm and p["mode"] == "CBC":
             se += ext(0x0016, b"")
         if spec.ems:
             se += ext(0x0017, b"")
         se += ext(0xFF01, b"\x00")
-    for i in range(spec.extra_exts):
-        se += ext(0x7000 + i, rb(rng, rng.randrange(0, 9)))
+    if v != 0x0300:
+        for i in range(spec.extra_exts):
+            se += ext(0x7000 + i, rb(rng.randrange(0, 9)))
     sh = legacy + sr + bytes([len(sid)]) + sid + suite_b + b"\x00"
-    if v == 0x0304 or (v != 0x0300 and spec.server_ext):
+    has_ext = v == 0x0304 or (v != 0x0300 and spec.server_ext)
+    if has_ext:
         sh += len(se).to_bytes(2, "big") + se
-    etm = spec.etm and p["mode"] == "CBC" and v not in (0x0300, 0x0304) and spec.server_ext
+    etm = bool(spec.etm and p["mode"] == "CBC" and v not in (0x0300, 0x0304) and has_ext)
 
     if v == 0x0304:
         hname = p["prf"]
         hl = hashlib.new(hname).digest_size
-        sec = {k: rb(rng, hl) for k in ("chs", "shs", "cap", "sap", "exp")}
+        sec = {k: rb(hl) for k in ("chs", "shs", "cap", "sap", "exp")}
         if spec.hs_secrets:
             keylog.append(f"CLIENT_HANDSHAKE_TRAFFIC_SECRET {cr.hex()} {sec['chs'].hex()}")
             keylog.append(f"SERVER_HANDSHAKE_TRAFFIC_SECRET {cr.hex()} {sec['shs'].hex()}")
-        keylog.append(f"EXPORTER_SECRET {cr.hex()} {sec['exp'].hex()}")
+        if spec.keylog_extra:
+            keylog.append(f"EXPORTER_SECRET {cr.hex()} {sec['exp'].hex()}")
         keylog.append(f"CLIENT_TRAFFIC_SECRET_0 {cr.hex()} {sec['cap'].hex()}")
         keylog.append(f"SERVER_TRAFFIC_SECRET_0 {cr.hex()} {sec['sap'].hex()}")
         k = {n: refkdf.tls13_traffic_keys(hname, s, p["key_len"]) for n, s in sec.items() if n != "exp"}
         cw = refrec.Writer(v, p, k["chs"][0], k["chs"][1], None, rng)
         sw = refrec.Writer(v, p, k["shs"][0], k["shs"][1], None, rng)
-        ref_keys = {"client_hs": k["chs"], "server_hs": k["shs"], "client_app": k["cap"], "server_app": k["sap"]}
+        ref_keys = {"client_hs": k["chs"], "server_hs": k["shs"], "client_app": k["cap"], "server_app": k["sap"], "secrets": sec}
 
         def pad():
             return rng.randrange(0, spec.pad13_max + 1) if spec.pad13_max else 0
 
-        ev.append(("s", refrec.plain_record(22, wire, hs(2, sh)), "hs", None))
+        def enc(w, d, ctype, body, kind, plain=None):
+            ev.append(Ev(d, w.protect(ctype, body, pad13=pad()), kind, plain if plain is not None else body))
+
+        ev.append(Ev("s", refrec.plain_record(22, wire, hs(2, sh)), "hs"))
         if spec.ccs13:
-            ev.append(("s", refrec.plain_record(20, wire, b"\x01"), "ccs", None))
+            ev.append(Ev("s", refrec.plain_record(20, wire, b"\x01"), "ccs"))
         flight = [hs(8, b"\x00\x00")]
         if not spec.resumed:
-            flight += [hs(11, b"\x00" + rb(rng, spec.cert_len)), hs(15, b"\x08\x04\x00\x40" + rb(rng, 64))]
-        flight.append(hs(20, rb(rng, hl)))
+            flight += [hs(11, b"\x00" + rb(spec.cert_len)), hs(15, b"\x08\x04\x00\x40" + rb(64))]
+        flight.append(hs(20, rb(hl)))
         i = 0
         for g in list(spec.group_server_flight) + [1] * len(flight):
             if i >= len(flight):
                 break
-            ev.append(("s", sw.protect(22, b"".join(flight[i:i + g]), pad13=pad()), "ehs", None))
+            enc(sw, "s", 22, b"".join(flight[i:i + g]), "ehs")
             i += g
         sw.rekey(*k["sap"])
         if spec.ccs13:
-            ev.append(("c", refrec.plain_record(20, wire, b"\x01"), "ccs", None))
-        ev.append(("c", cw.protect(22, hs(20, rb(rng, hl)), pad13=pad()), "ehs", None))
+            ev.append(Ev("c", refrec.plain_record(20, wire, b"\x01"), "ccs"))
+        enc(cw, "c", 22, hs(20, rb(hl)), "ehs")
         cw.rekey(*k["cap"])
         tick_at = sorted(rng.randrange(0, len(spec.app) + 1) for _ in range(spec.tickets))
         for idx, (d, data) in enumerate(spec.app):
             while tick_at and tick_at[0] <= idx:
                 tick_at.pop(0)
-                ev.append(("s", sw.protect(22, hs(4, rb(rng, 40)), pad13=pad()), "ehs", None))
-            w = cw if d == "c" else sw
-            ev.append((d, w.protect(23, data, pad13=pad()), "app", data))
+                enc(sw, "s", 22, hs(4, rb(40)), "ehs")
+            enc(cw if d == "c" else sw, d, 23, data, "app")
             truth[d] += data
         for _ in tick_at:
-            ev.append(("s", sw.protect(22, hs(4, rb(rng, 40)), pad13=pad()), "ehs", None))
+            enc(sw, "s", 22, hs(4, rb(40)), "ehs")
         if spec.alert_end:
-            ev.append(("c", cw.protect(21, b"\x01\x00"), "alert", None))
-        return Conn(spec, ev, keylog, truth, ref_keys, cr)
+            enc(cw, "c", 21, b"\x01\x00", "alert")
+        return _finish(spec, ev, keylog, truth, ref_keys, cr, sr, p)
 
     # ---------------- SSL3 .. TLS1.2
-    master = rb(rng, 48)
+    master = rb(48)
     keylog.append(f"CLIENT_RANDOM {cr.hex()} {master.hex()}")
     if p["aead"]:
         iv_len = 12 if p["mode"] == "CHACHA" else 4
@@ -176,30 +218,107 @@ def build_conn(spec: Spec, rng) -> Conn:
     sw = refrec.Writer(v, p, k["server_key"], k["server_iv"], k["server_mac"], rng, etm)
     fin_len = 36 if v == 0x0300 else 12
 
-    def fin(w):
-        return w.protect(22, hs(20, rb(rng, fin_len)), extra_pad_blocks=spec.extra_pad_blocks)
+    def penc(w, d, ctype, body, kind):
+        ev.append(Ev(d, w.protect(ctype, body, extra_pad_blocks=spec.extra_pad_blocks if v != 0x0300 else 0), kind, body))
 
     if spec.resumed:
-        ev.append(("s", refrec.plain_record(22, wire, hs(2, sh)), "hs", None))
-        ev.append(("s", refrec.plain_record(20, wire, b"\x01"), "ccs", None))
-        ev.append(("s", fin(sw), "ehs", None))
-        ev.append(("c", refrec.plain_record(20, wire, b"\x01"), "ccs", None))
-        ev.append(("c", fin(cw), "ehs", None))
+        ev.append(Ev("s", refrec.plain_record(22, wire, hs(2, sh)), "hs"))
+        ev.append(Ev("s", refrec.plain_record(20, wire, b"\x01"), "ccs"))
+        penc(sw, "s", 22, hs(20, rb(fin_len)), "ehs")
+        ev.append(Ev("c", refrec.plain_record(20, wire, b"\x01"), "ccs"))
+        penc(cw, "c", 22, hs(20, rb(fin_len)), "ehs")
     else:
-        msgs = [hs(2, sh), hs(11, b"\x00" + rb(rng, spec.cert_len)), hs(12, rb(rng, 70)), hs(14, b"")]
+        cert = b"\x00" + rb(spec.cert_len)
+        if spec.cert_trap:
+            cert = bytes([0, 4]) + rb(4) + b"\x00\x16\x00\x00" + b"\x00\x2b\x00\x02\x03\x04" + rb(max(0, spec.cert_len - 16))
+        msgs = [hs(2, sh), hs(11, cert), hs(12, rb(70)), hs(14, b"")]
         for r in pack_records(msgs, spec.group_server_flight, wire):
-            ev.append(("s", r, "hs", None))
-        ev.append(("c", refrec.plain_record(22, wire, hs(16, rb(rng, 66))), "hs", None))
-        ev.append(("c", refrec.plain_record(20, wire, b"\x01"), "ccs", None))
-        ev.append(("c", fin(cw), "ehs", None))
+            ev.append(Ev("s", r, "hs"))
+        ev.append(Ev("c", refrec.plain_record(22, wire, hs(16, rb(66))), "hs"))
+        ev.append(Ev("c", refrec.plain_record(20, wire, b"\x01"), "ccs"))
+        penc(cw, "c", 22, hs(20, rb(fin_len)), "ehs")
         if spec.tickets:
-            ev.append(("s", refrec.plain_record(22, wire, hs(4, rb(rng, 50))), "hs", None))
-        ev.append(("s", refrec.plain_record(20, wire, b"\x01"), "ccs", None))
-        ev.append(("s", fin(sw), "ehs", None))
+            ev.append(Ev("s", refrec.plain_record(22, wire, hs(4, rb(50))), "hs"))
+        ev.append(Ev("s", refrec.plain_record(20, wire, b"\x01"), "ccs"))
+        penc(sw, "s", 22, hs(20, rb(fin_len)), "ehs")
     for d, data in spec.app:
-        w = cw if d == "c" else sw
-        ev.append((d, w.protect(23, data, extra_pad_blocks=spec.extra_pad_blocks), "app", data))
+        penc(cw if d == "c" else sw, d, 23, data, "app")
         truth[d] += data
     if spec.alert_end:
-        ev.append(("c", cw.protect(21, b"\x01\x00"), "alert", None))
-    return Conn(spec, ev, keylog, truth, k, cr)
+        penc(cw, "c", 21, b"\x01\x00", "alert")
+    k = dict(k)
+    k["iv_len"] = iv_len
+    return _finish(spec, ev, keylog, truth, k, cr, sr, p, master)
+
+
+# ------------------------------------------------------------------ random specs
+BOUNDARY_LENS = [0, 1, 2, 7, 8, 15, 16, 17, 31, 32, 33, 100, 255, 256, 1000, 1460, 1461, 4096, 16383, 16384]
+
+
+def random_history(rng, nmax=40, big=True, pattern=None):
+    """[(dir, bytes)] ; lengths biased to block/record boundaries; direction patterns: ping-pong, one-sided runs, server-first, 1/n-1 split"""
+    n = rng.choice([0, 1, 2, 3, 5, 8, 13, nmax // 2, nmax]) if nmax > 13 else rng.randrange(0, nmax + 1)
+    pattern = pattern or rng.choice(["pingpong", "runs", "server-first", "split", "random", "client-only", "server-only"])
+    out = []
+    d = "s" if pattern in ("server-first", "server-only") else "c"
+    budget = 60000 if big else 6000
+    for i in range(n):
+        if pattern == "pingpong":
+            d = "cs"[i % 2]
+        elif pattern == "runs":
+            if rng.random() < 0.15:
+                d = "s" if d == "c" else "c"
+        elif pattern in ("random", "server-first"):
+            if i:
+                d = rng.choice("cs")
+        elif pattern == "split":
+            d = rng.choice("cs")
+        r = rng.random()
+        if r < 0.45:
+            ln = rng.choice(BOUNDARY_LENS[:14])
+        elif r < 0.6 and big:
+            ln = rng.choice(BOUNDARY_LENS)
+        else:
+            ln = rng.randrange(0, 600)
+        ln = min(ln, max(0, budget))
+        budget -= ln
+        data = rng.randbytes(ln)
+        if pattern == "split" and ln > 1:   # BEAST countermeasure shape: 1 / n-1
+            out.append((d, data[:1]))
+            out.append((d, data[1:]))
+        else:
+            out.append((d, data))
+    return out, pattern
+
+
+def random_spec(rng, version, code, nmax=40, big=True, avoid=()):
+    """avoid: iterable of trigger names of listed findings not to generate"""
+    p = suites.parse_name(suites.REGISTRY[code])
+    app, pattern = random_history(rng, nmax, big)
+    s = Spec(version=version, suite=code, app=app)
+    s.resumed = rng.random() < 0.3
+    s.sid_len = rng.choice([0, 0, 1, 16, 31, 32, rng.randrange(0, 33)])
+    s.etm = rng.random() < 0.4
+    s.ems = rng.random() < 0.6
+    s.extra_exts = rng.choice([0, 0, 1, 3])
+    s.server_ext = rng.random() < 0.85
+    nmsg = 4
+    comp = []
+    left = nmsg
+    while left > 0:
+        g = rng.randrange(1, left + 1)
+        comp.append(g)
+        left -= g
+    s.group_server_flight = tuple(comp)
+    s.hs_secrets = rng.random() < 0.8
+    s.ccs13 = rng.random() < 0.7
+    s.pad13_max = rng.choice([0, 0, 1, 16, 255])
+    s.tickets = rng.choice([0, 0, 1, 2])
+    s.alert_end = rng.random() < 0.3
+    s.cert_len = rng.choice([10, 300, 1500, 5000])
+    s.extra_pad_blocks = rng.choice([0, 0, 0, 1, 3, 15])
+    s.offered = tuple(rng.sample(suites.SUPPORTED, rng.randrange(0, 4)))
+    s.keylog_extra = rng.random() < 0.7
+    s.cert_trap = rng.random() < 0.3
+    classes = dict(pattern=pattern, nrec=len(app))
+    return s, classes
